@@ -9,6 +9,7 @@ import sys
 
 wt, k, prop, suffix, change, detection = sys.argv[1:7]
 ran = sys.argv[7] if len(sys.argv) > 7 else prop
+scratch = len(sys.argv) > 8 and sys.argv[8] == "scratch"
 src = os.path.join(wt, "OUT")
 dst = "/verif/seeded/%s-%s" % (prop, suffix)
 os.makedirs(dst, exist_ok=True)
@@ -20,8 +21,10 @@ for f in glob.glob(os.path.join(src, "demo%s*" % k)) + glob.glob(os.path.join(sr
         shutil.copy(f, dst)
 notes = open(os.path.join(src, "notes%s.md" % k)).read()
 meta = {"property": prop, "change": change, "needs_to_manifest": notes[:1500],
-        "confirmed": "applied in a scratch worktree: cargo test --workspace --no-fail-fast --offline -> 83 passed, only cpp_test_suite fails (as on the pristine tree); demonstration differs from / fails against the pristine tree (seedtest.sh)",
-        "ran": "git -C /repo apply patch.diff; " + "; ".join("./check %s --tier quick" % p for p in ran.split()) + "; git -C /repo checkout -- .",
+        "confirmed": "applied in a scratch worktree: cargo test --workspace --no-fail-fast --offline -> 83 passed, only cpp_test_suite fails (as on the pristine tree); demonstration differs from / fails against the pristine tree (seedtest.sh / confirm.sh)",
+        "ran": ("git -C /repo apply patch.diff; " + "; ".join("./check %s --tier quick" % p for p in ran.split()) + "; git -C /repo checkout -- .") if not scratch else
+               ("patch applied to a scratch worktree of /repo (/tmp/mr1, removed afterwards); " + "; ".join("VERIF_REPO=/tmp/mr1 ./check %s --tier quick" % p for p in ran.split())
+                + " from a scratch copy of /verif with its own build directories (mrun.sh) - /repo itself stayed untouched because other checks were running against it"),
         "detection": detection}
 json.dump(meta, open(os.path.join(dst, "meta.json"), "w"), indent=1, ensure_ascii=False)
 print("kept", dst)
